@@ -230,7 +230,39 @@ def rule_table(r):
             "Iq, form_volume, valid ... stay the base model's")
 
 
+def rule_offsets(r):
+    """Positions the kernel relies on are located in the *derived* table by name, never assumed from the base layout:
+    a new parameter may be inserted anywhere (insert_after), including after the orientation angles."""
+    mi = pf.lib("modelinfo")
+    MI = "sasmodels/modelinfo.py"
+    init = mi.func("ParameterTable.__init__")
+    # theta_offset: a running sum of lengths over kernel_parameters up to the parameter named theta
+    loops = [s_ for s_ in pf.walk_stmts(init) if isinstance(s_, ast.For) and pf.unparse(s_.iter) == "self.kernel_parameters"
+             and "theta_offset" in pf.unparse(s_)]
+    ok = False
+    if loops:
+        t = pf.unparse(loops[0])
+        ok = "if p.name == 'theta':" in t and "self.theta_offset = offset" in t and "offset += p.length" in t and "break" in t
+    r.check(ok, MI, "ParameterTable.__init__", "theta_offset found by scanning kernel_parameters for 'theta', summing lengths",
+            loops[0].lineno if loops else init.lineno,
+            "the view angles are read at values[theta_par+2..]; theta_par must be theta's real position in the table at hand"
+            if ok else "theta_offset is not computed by a name scan over the table: with insert_after={'phi': ...} the kernel "
+            "reads the view angles from the wrong slots")
+    t = pf.unparse(init)
+    r.check("self.magnetism_index = [k for (k, p) in enumerate(self.call_parameters) if p.id.endswith('_M0')]".replace("(k, p)", "k, p")
+            in t.replace("(k, p)", "k, p"), MI, "ParameterTable.__init__", "magnetism_index located by name scan", init.lineno)
+    ca = mi.func("ParameterTable.check_angles")
+    r.check("if phi != theta + 1:" in pf.unparse(ca) and "if psi >= 0 and psi != phi + 1:" in pf.unparse(ca), MI,
+            "ParameterTable.check_angles", "adjacency of theta, phi, psi enforced on the derived table", ca.lineno,
+            "derive_table ends in ParameterTable(new), which runs check_angles")
+    g = pf.lib("generate")
+    ms = g.func("make_source")
+    r.check(pf.contains_text(ms, "magpars = [k - 2 for (k, p) in enumerate(call_table.call_parameters) if p.type == 'sld']"),
+            "sasmodels/generate.py", "make_source", "MAGNETIC_PARS located in the caller table by type scan", ms.lineno)
+
+
 RULES = [
+    ("R-C16-offsets", 4, "kernel-relevant positions located by scan in the derived table", rule_offsets),
     ("R-C16-subs", 16, "all call macros generated from the base table through subs", rule_subs),
     ("R-C16-order", 19, "witness: intermediates -> VALID -> guarded calls, in three kernels", make_c_rule("R-C16-order")),
     ("R-C16-ident", 12, "witness: qualified identifiers only", make_c_rule("R-C16-ident")),
